@@ -127,6 +127,12 @@ theorem walkL_ok_of_wellFormed {α : Type} (h : Raw → Option α) :
       | none => exact ⟨rs, hs⟩
 end
 
+/-- `wellFormed` is what model validation enforces: `isUsersetRewriteValid` rejects a node whose oneof is unset
+before anything else, and recurses into every child of a union / intersection / difference -/
+theorem tie_rewrite_validation :
+    Gen.Panics.rewriteNilGuardFirst = true ∧
+    Gen.Panics.rewriteValidationRecursesInto = ["child", "child", "r.Difference.GetBase()", "r.Difference.GetSubtract()"] := ⟨rfl, rfl⟩
+
 /-- **`RewriteContainsSelf` does not panic on a validated rewrite** (every node has its oneof set — the first test
 of `isUsersetRewriteValid`, applied recursively by model validation). -/
 theorem rewriteContainsSelf_no_panic (rw : Raw) (hw : wellFormed rw = true) : ∃ b, rewriteContainsSelf rw = .ok b := by
